@@ -965,6 +965,8 @@ class Fxp():
                     new_val = new_val.astype(np.int64 if self.signed else np.uint64)
             
             if index is not None:
+                if isinstance(new_val, np.ndarray) and new_val.ndim == 0 and new_val.dtype == object:
+                    new_val = new_val.item()    # (a python integer is stored as element, not the array that boxes it)
                 self.val[index] = new_val
             else:
                 self.val = new_val
